@@ -5,6 +5,8 @@ import subprocess
 import shutil
 import tempfile
 from ..tree import *  # noqa
+from .. import norm
+from ..flow import Index
 from ..flow import Index
 from .. import intcast
 from .c02 import binding_of_pat
@@ -60,8 +62,102 @@ def run(ctx):
     entrance(ctx)
     truefalse(ctx)
     bijection(ctx)
+    memo_tables(ctx)
     if ctx.tier == "thorough":
         witnesses(ctx)
+
+
+def memo_tables(ctx):
+    """R12.6: a reference handed out from a secondary table of the context is keyed by everything it depends on"""
+    ctx.rule("R12.6", "a Context method that returns a reference read from a field other than the interner tables (a memo table) finds, for every insertion into that field, "
+                      "every parameter the stored reference depends on among the parameters the key depends on: a lossy key makes structurally different expressions share a reference")
+    c = ctx.facts.lib("patronus")
+    interner = set(ALLOWED) | {"true_expr_ref", "false_expr_ref"}
+    methods = {p: fl[0] for p, fl in c.fns.items() if p.startswith(CTX + "::") and "{closure" not in p}
+    n_reads = 0
+    for p, f, fld, bad, n_ins in memo_findings(methods, interner):
+        n_reads += 1
+        ctx.inst("R12.6", "%s:reads-%s" % (p.split("::")[-1], fld), not bad, f["span"],
+                 "%s returns a reference read from Context.%s; %s: two structurally different expressions get the same reference" % (p, fld, "; ".join(bad)),
+                 sample={"method": p, "field": fld, "insertions": n_ins})
+    ctx.extra["memo_table_reads"] = n_reads
+
+
+def memo_findings(methods, interner, ref_types=("ExprRef", "StringRef")):
+    """[(method path, fn, field, [defects], number of insertions)] for every method that returns a reference read from a non-interner field of self"""
+    inserts = {}
+    for p, f in methods.items():
+        params = {canon(i) for q in f["params"] for _, i in pat_bindings(q)}
+        fdefs = local_defs(f)
+
+        def deps(e, depth=0, seen=None, params=params, fdefs=fdefs):
+            seen = seen if seen is not None else set()
+            out = set()
+            for x in walk(e):
+                if x.get("k") == "local":
+                    i = canon(x["id"])
+                    if i in params:
+                        out.add(x.get("name"))
+                    elif depth < 6 and i not in seen:
+                        seen.add(i)
+                        init = LET_INITS.get(x["id"]) or LET_INITS.get(i) or simple_let_init(fdefs, x["id"])
+                        if init is not None:
+                            out |= deps(init, depth + 1, seen)
+            return out
+        for n in walk(f["body"]):
+            if n.get("k") == "mcall" and n["name"] in ("insert", "entry", "insert_full", "push") and n.get("args"):
+                fp = field_path(chain(n["recv"])[0])
+                if fp and fp[0] == "self" and len(fp[2]) == 1 and fp[2][0] not in interner:
+                    key = n["args"][0]
+                    val = n["args"][1] if len(n["args"]) > 1 else None
+                    inserts.setdefault(fp[2][0], []).append((p, n, deps(key) - {"self"}, (deps(val) - {"self"}) if val is not None else None))
+    out = []
+    for p, f in sorted(methods.items()):
+        ix = Index(f["body"])
+        defs = local_defs(f)
+        fields = set()
+        for cs, leaf in norm.function_results(f, ix):
+            leaf = peel(leaf)
+            if not any(t in (leaf.get("ty") or "") for t in ref_types):
+                continue
+            fld = _origin_field(leaf, defs)
+            if fld and fld not in interner:
+                fields.add(fld)
+        for fld in sorted(fields):
+            ins = inserts.get(fld, [])
+            bad = ["%s stores a reference that depends on {%s} under a key that depends on {%s}" % (ip.split("::")[-1], ", ".join(sorted(dv)), ", ".join(sorted(dk)))
+                   for ip, _, dk, dv in ins if dv is not None and not dv <= dk]
+            out.append((p, f, fld, bad, len(ins)))
+    return out
+
+
+def _origin_field(leaf, defs, depth=0):
+    """the field of self a returned value was read from (through `if let Some(x) = self.f.get(..)`, `match`, lets), or None"""
+    leaf = peel(leaf)
+    if depth > 6:
+        return None
+    if leaf.get("k") == "local":
+        d = defs.get(leaf["id"]) or defs.get(canon(leaf["id"]))
+        if not d:
+            return None
+        kind, node, pat = d
+        src = None
+        if kind in ("let", "letexpr") and "init" in node:
+            src = node["init"]
+        elif kind == "arm":
+            src = node["scrut"]
+        if src is None:
+            return None
+        return _origin_field(src, defs, depth + 1)
+    b, ms = chain(strip_try(leaf))
+    fp = field_path(peel(b))
+    if fp and fp[0] == "self" and fp[2]:
+        return fp[2][0]
+    if peel(b).get("k") == "local" and ms:
+        return _origin_field(peel(b), defs, depth + 1)
+    if peel(b).get("k") == "index":
+        return _origin_field(peel(b)["e"], defs, depth + 1)
+    return None
 
 
 def tables(ctx):
